@@ -584,7 +584,16 @@ pub fn history_preemptions(p: &Program, hist: &crate::accept::History) -> Option
             if *u as usize != t {
                 // could t have continued?
                 let more = s.th[t].pc < p.threads[t].len();
-                if more && !matches!(p.threads[t][s.th[t].pc].k, K::Yield) {
+                // ops that can yield or block *inside* the call (before completing) make the
+                // switch voluntary although nothing completed: a `Notify::wait` (spurious return,
+                // then `yield_now`), spin loops, condvar waits (enqueue, then block) and the
+                // wait-in-a-loop ops. Not countable from the history.
+                let inside = more
+                    && matches!(
+                        p.threads[t][s.th[t].pc].k,
+                        K::NWait { .. } | K::NWaitUntil { .. } | K::ParkUntil { .. } | K::CvWaitUntil { .. } | K::Wait { .. } | K::Yield | K::Await { .. }
+                    );
+                if more && !inside {
                     let enabled = s.succ(p, t, mode).iter().any(|(n, _)| !n.via_spurious);
                     if enabled {
                         count += 1;
